@@ -145,6 +145,12 @@ func (p *pipe) Close() error {
 		p.closing = true
 		if p.added {
 			p.s.remPipe(p)
+		} else {
+			// Never attached (refused by the protocol, or closed
+			// before it could be added): there will be no detach,
+			// so forget the pipe and release its ID here.
+			p.s.pipes.Remove(p)
+			pipeIDs.Free(p.id)
 		}
 		p.lock.Unlock()
 
